@@ -783,6 +783,39 @@ Proof. vm_compute. auto. Qed.
 Lemma c10_contract_refuted : ~ C10_contract.
 Proof. intros H. specialize (H [HCancel CBusy; HUse KClosVar VEval]). vm_compute in H. discriminate. Qed.
 
+(** ---------------------------------------------------------------- the abandoned Execute *)
+
+(** EvalWithContext returns as soon as stop() has been called; the goroutine of the cancelled
+    evaluation is still inside Execute. When the host evaluates again at once, that goroutine has
+    not exited: its next scheduling decisions are phase starts, i.e. Execute going on to read
+    interpreter state (program.go: interp.scopes[...] for the package variables, the init list)
+    that the new evaluation is writing. In Go that is a data race on a map: fatal error, the host
+    process dies (region "next-eval-race"). *)
+Lemma abandoned_execute_refuted :
+  let s1 := run F_init fresh H_init in
+  let s2 := run F_init s1 [AStop; AExecute [PRoot 0]] in
+  exited s2 0 = false /\ phases (thread_of s2 0) = [PFun 2; PFun 3]
+  /\ ticks_of (new_events s1 (run F_init s2 (alone 0 40))) = [1; 2; 2; 3; 3; 3].
+Proof. vm_compute. auto. Qed.
+
+(** ---------------------------------------------------------------- cancellability fixed at generation time *)
+
+(** a receive loaded by a plain Eval before the interpreter's first *WithContext call is generated
+    non-cancellable: run later under a context and cancelled while blocked, its goroutine is left
+    (1 thread alive); the same code loaded after a first *WithContext call, or by EvalWithContext,
+    or a range over the channel instead, exits *)
+Lemma nocancel_gen_refuted :
+  y_outcomes (sess_F false LEval KRecv) (sess_park false LEval) = [(false, [], 1)]
+  /\ y_outcomes (sess_F true LEval KRecv) (sess_park true LEval) = [(false, [], 0)]
+  /\ y_outcomes (sess_F false LEvalCtx KRecv) (sess_park false LEvalCtx) = [(false, [], 0)]
+  /\ y_outcomes (sess_F false LEval KRange) (sess_park false LEval) = [(false, [], 0)].
+Proof. vm_compute. auto. Qed.
+
+(** whatever the session, range and select are generated cancellable, and so is everything
+    generated after a Begin *)
+Lemma gen_canc_sound c h : (c = KRange \/ c = KSelect \/ begun h = true) -> gen_canc c (begun h) = true.
+Proof. intros [->|[->|H]]; auto. rewrite H. destruct c; auto. Qed.
+
 (** ---------------------------------------------------------------- the slot of a function literal *)
 
 (** regression (finding C09-literal-slot, repaired by abe7a69): the former crash witness starts the
